@@ -1469,7 +1469,7 @@ fn pre_exp(x: &FV, p: u64) -> Exp {
 
 const KF_LN: &str = "C16/float-ln-domain-unchecked";
 
-fn pre_ln(x: &FV, p: u64, one_plus: bool) -> Exp {
+fn pre_ln(x: &FV, p: u64, one_plus: bool, base: u64) -> Exp {
     // domain: ln x needs x > 0, ln_1p x needs x > -1
     let (at_pole, below) = if one_plus {
         let c = if x.finite() { x.cmp_int(-1) } else { Ordering::Greater };
@@ -1482,7 +1482,10 @@ fn pre_ln(x: &FV, p: u64, one_plus: bool) -> Exp {
         .must(at_pole || below, L_LOG, "")
         .known((at_pole || below) && p != 0 && !x.extreme(), KF_LN, On::HangOrMem)
         .known((at_pole || below) && p != 0 && !x.extreme(), KF_LN, On::Returns)
-        .unspec(x.far(), L_FAR)
+        // binary floats are scaled by an exact shift: ln x = ln(m·2^-s) + (e+s)·ln 2 costs the same
+        // for every exponent (stated for |e| <= 2^31; beyond that only "far" is known)
+        .unspec(x.far() && !(base == 2 && !one_plus && x.exp.unsigned_abs() <= 1 << 31), L_FAR)
+        .cheap_exp(base == 2 && !one_plus && x.exp.unsigned_abs() <= 1 << 31)
         .done()
 }
 
@@ -1531,6 +1534,16 @@ const KF_POWF0: &str = "C16/powf-zero-base-negative-exponent";
 /// trunc / fract / ceil / floor / round / to_int: documented to panic on infinities
 fn pre_round(x: &FV) -> Exp {
     Pre::new().unspec(x.extreme(), L_EXT).must(x.inf != 0, L_INF, M_INF).unspec(x.far(), L_FAR).heavy(x.far()).done()
+}
+
+/// the same, except that a number below one in magnitude never needs its digits: the answer is 0, ±1
+/// or the number itself however far the exponent lies below zero
+fn pre_round_lt1(x: &FV) -> Exp {
+    if x.finite() && !x.zero && !x.extreme() && x.far() && x.exp < 0 && x.exp.saturating_add(x.digits.min(i64::MAX as u64) as i64) <= 0 {
+        Pre::new().cheap_exp(true).done()
+    } else {
+        pre_round(x)
+    }
 }
 
 /// sign / precision / cloning ...: infinities are "only supposed to be used as sentinels"
@@ -1729,8 +1742,8 @@ fn float_ops<R: ModeTag, const B: Word>(v: &mut Vec<Op>) {
     fentry!(v, M, B, format!("{t}::sqrt"), FX, |c| SquareRoot::sqrt(&c.fx::<R, B>()), |d| { let x = fv(&d.x, B as u64); pre_sqrt(&x, x.prec) });
     fentry!(v, M, B, format!("{t}::exp"), FX, |c| c.fx::<R, B>().exp(), |d| { let x = fv(&d.x, B as u64); pre_exp(&x, x.prec) });
     fentry!(v, M, B, format!("{t}::exp_m1"), FX, |c| c.fx::<R, B>().exp_m1(), |d| { let x = fv(&d.x, B as u64); pre_exp(&x, x.prec) });
-    fentry!(v, M, B, format!("{t}::ln"), U0.lnx(), |c| c.fx::<R, B>().ln(), |d| { let x = fv(&d.x, B as u64); pre_ln(&x, x.prec, false) });
-    fentry!(v, M, B, format!("{t}::ln_1p"), U0.lnx(), |c| c.fx::<R, B>().ln_1p(), |d| { let x = fv(&d.x, B as u64); pre_ln(&x, x.prec, true) });
+    fentry!(v, M, B, format!("{t}::ln"), U0.lnx(), |c| c.fx::<R, B>().ln(), |d| { let x = fv(&d.x, B as u64); pre_ln(&x, x.prec, false, B as u64) });
+    fentry!(v, M, B, format!("{t}::ln_1p"), U0.lnx(), |c| c.fx::<R, B>().ln_1p(), |d| { let x = fv(&d.x, B as u64); pre_ln(&x, x.prec, true, B as u64) });
     fentry!(v, M, B, format!("{t}::powi"), U0.x().bexp(), |c| c.fx::<R, B>().powi(c.ib()), |d| { let x = fv(&d.x, B as u64); pre_powi(&x, &d.b, x.prec) });
     fentry!(v, M, B, format!("{t}::powf"), FXY, |c| c.fx::<R, B>().powf(&c.fy::<R, B>()), |d| { let (x, y) = (fv(&d.x, B as u64), fv(&d.y, B as u64)); pre_powf(&x, &y, ctx_max(&x, &y)) });
     // ---- Context methods
@@ -1746,19 +1759,19 @@ fn float_ops<R: ModeTag, const B: Word>(v: &mut Vec<Op>) {
     fentry!(v, C, B, format!("{ct}::sqrt"), CX, |c| c.cx::<R>().sqrt(&c.rx::<B>()), |d| pre_sqrt(&fv(&d.x, B as u64), d.p as u64));
     fentry!(v, C, B, format!("{ct}::exp"), CX, |c| c.cx::<R>().exp(&c.rx::<B>()), |d| pre_exp(&fv(&d.x, B as u64), d.p as u64));
     fentry!(v, C, B, format!("{ct}::exp_m1"), CX, |c| c.cx::<R>().exp_m1(&c.rx::<B>()), |d| pre_exp(&fv(&d.x, B as u64), d.p as u64));
-    fentry!(v, C, B, format!("{ct}::ln"), U0.lnx().p(), |c| c.cx::<R>().ln(&c.rx::<B>()), |d| pre_ln(&fv(&d.x, B as u64), d.p as u64, false));
-    fentry!(v, C, B, format!("{ct}::ln_1p"), U0.lnx().p(), |c| c.cx::<R>().ln_1p(&c.rx::<B>()), |d| pre_ln(&fv(&d.x, B as u64), d.p as u64, true));
+    fentry!(v, C, B, format!("{ct}::ln"), U0.lnx().p(), |c| c.cx::<R>().ln(&c.rx::<B>()), |d| pre_ln(&fv(&d.x, B as u64), d.p as u64, false, B as u64));
+    fentry!(v, C, B, format!("{ct}::ln_1p"), U0.lnx().p(), |c| c.cx::<R>().ln_1p(&c.rx::<B>()), |d| pre_ln(&fv(&d.x, B as u64), d.p as u64, true, B as u64));
     fentry!(v, C, B, format!("{ct}::powi"), U0.x().p().bexp(), |c| c.cx::<R>().powi(&c.rx::<B>(), c.ib()), |d| pre_powi(&fv(&d.x, B as u64), &d.b, d.p as u64));
     fentry!(v, C, B, format!("{ct}::powf"), CXY, |c| c.cx::<R>().powf(&c.rx::<B>(), &c.ry::<B>()), |d| pre_powf(&fv(&d.x, B as u64), &fv(&d.y, B as u64), d.p as u64));
     fentry!(v, C, B, format!("{ct}::convert_int"), U0.a(2).p(), |c| c.cx::<R>().convert_int::<B>(c.ia()), |_d| ret());
     fentry!(v, C, B, format!("{ct}::new / max / precision / is_limited"), U0.p().n(NK::Prec), |c| { let (x, y) = (Context::<R>::new(c.p as usize), Context::<R>::new(c.nu())); (Context::max(x, y).precision(), x.precision()) }, |_d| ret());
     // ---- rounding to integers
     const Rr: &str = "float: trunc, fract, ceil, floor, round, to_int";
-    fentry!(v, Rr, B, format!("{t}::trunc"), FX, |c| c.fx::<R, B>().trunc(), |d| pre_round(&fv(&d.x, B as u64)));
-    fentry!(v, Rr, B, format!("{t}::fract"), FX, |c| c.fx::<R, B>().fract(), |d| pre_round(&fv(&d.x, B as u64)));
-    fentry!(v, Rr, B, format!("{t}::ceil"), FX, |c| c.fx::<R, B>().ceil(), |d| pre_round(&fv(&d.x, B as u64)));
-    fentry!(v, Rr, B, format!("{t}::floor"), FX, |c| c.fx::<R, B>().floor(), |d| pre_round(&fv(&d.x, B as u64)));
-    fentry!(v, Rr, B, format!("{t}::round"), FX, |c| c.fx::<R, B>().round(), |d| pre_round(&fv(&d.x, B as u64)));
+    fentry!(v, Rr, B, format!("{t}::trunc"), FX, |c| c.fx::<R, B>().trunc(), |d| pre_round_lt1(&fv(&d.x, B as u64)));
+    fentry!(v, Rr, B, format!("{t}::fract"), FX, |c| c.fx::<R, B>().fract(), |d| pre_round_lt1(&fv(&d.x, B as u64)));
+    fentry!(v, Rr, B, format!("{t}::ceil"), FX, |c| c.fx::<R, B>().ceil(), |d| pre_round_lt1(&fv(&d.x, B as u64)));
+    fentry!(v, Rr, B, format!("{t}::floor"), FX, |c| c.fx::<R, B>().floor(), |d| pre_round_lt1(&fv(&d.x, B as u64)));
+    fentry!(v, Rr, B, format!("{t}::round"), FX, |c| c.fx::<R, B>().round(), |d| pre_round_lt1(&fv(&d.x, B as u64)));
     fentry!(v, Rr, B, format!("{t}::to_int"), FX, |c| c.fx::<R, B>().to_int(), |d| pre_round(&fv(&d.x, B as u64)));
     fentry!(v, Rr, B, format!("Repr<{B}>::to_int"), FX, |c| c.rx::<B>().to_int(), |d| pre_round(&fv(&d.x, B as u64)));
     // split_at_point has no "# Panics" section
@@ -1771,6 +1784,10 @@ fn float_ops<R: ModeTag, const B: Word>(v: &mut Vec<Op>) {
     fentry!(v, V, B, format!("Repr<{B}>::to_f64"), FX, |c| c.rx::<B>().to_f64(), |d| pre_to_float(&fv(&d.x, B as u64), B as u64, 53));
     fentry!(v, V, B, format!("IBig::try_from({t})"), FX, |c| IBig::try_from(c.fx::<R, B>()), |d| { let x = fv(&d.x, B as u64); Pre::new().unspec(x.extreme(), L_EXT).unspec(x.far(), L_FAR).heavy(x.far()).done() });
     fentry!(v, V, B, format!("UBig::try_from({t})"), FX, |c| UBig::try_from(c.fx::<R, B>()), |d| { let x = fv(&d.x, B as u64); Pre::new().unspec(x.extreme(), L_EXT).unspec(x.far(), L_FAR).heavy(x.far()).done() });
+    // the primitive integer targets are decided from the magnitude estimate: no exponent, however
+    // large, needs B^|e| for an answer that is Err(OutOfBounds) / Err(LossOfPrecision)
+    fentry!(v, V, B, format!("i8/i64/i128::try_from({t})"), FX, |c| (i8::try_from(c.fx::<R, B>()), i64::try_from(c.fx::<R, B>()), i128::try_from(c.fx::<R, B>())), |d| { let x = fv(&d.x, B as u64); Pre::new().unspec(x.extreme(), L_EXT).cheap_exp(true).done() });
+    fentry!(v, V, B, format!("u8/u64/u128::try_from({t})"), FX, |c| (u8::try_from(c.fx::<R, B>()), u64::try_from(c.fx::<R, B>()), u128::try_from(c.fx::<R, B>())), |d| { let x = fv(&d.x, B as u64); Pre::new().unspec(x.extreme(), L_EXT).cheap_exp(true).done() });
     fentry!(v, V, B, format!("{t}::from(UBig)"), U0.a(1), |c| FBig::<R, B>::from(c.ua()), |_d| ret());
     fentry!(v, V, B, format!("{t}::from(IBig)"), U0.a(2), |c| FBig::<R, B>::from(c.ia()), |_d| ret());
     fentry!(v, V, B, format!("{t}::from(i64) / from(u128)"), U0.k(), |c| (FBig::<R, B>::from(c.k128() as i64), FBig::<R, B>::from(c.k128() as u128)), |_d| ret());
@@ -1803,10 +1820,12 @@ fn float_ops<R: ModeTag, const B: Word>(v: &mut Vec<Op>) {
     fentry!(v, S, B, format!("{t}::sign/is_positive/is_negative"), FX, |c| { let x = c.fx::<R, B>(); (x.sign(), Signed::is_positive(&x), Signed::is_negative(&x)) }, |d| pre_passive(&fv(&d.x, B as u64)));
     fentry!(v, S, B, format!("{t} * Sign / Sign * {t} / *= Sign"), U0.x().n(NK::Sel), |c| { let s = if c.n % 2 == 0 { Sign::Positive } else { Sign::Negative }; let mut z = c.fx::<R, B>(); z *= s; (c.fx::<R, B>() * s, s * c.fx::<R, B>(), z) }, |d| pre_passive(&fv(&d.x, B as u64)));
     // equality and ordering are the operations documented to work with infinities
-    fentry!(v, S, B, format!("{t} == / cmp / partial_cmp"), FXY, |c| { let (x, y) = (c.fx::<R, B>(), c.fy::<R, B>()); (x == y, x.cmp(&y), x.partial_cmp(&y)) }, |d| Pre::new().unspec(any_extreme(&[&fv(&d.x, B as u64), &fv(&d.y, B as u64)]), L_EXT).done());
-    fentry!(v, S, B, format!("{t} == / partial_cmp FBig<Down,{B}>"), FXY, |c| { let (x, y) = (c.fx::<R, B>(), c.fy::<mode::Down, B>()); (x == y, x.partial_cmp(&y)) }, |d| Pre::new().unspec(any_extreme(&[&fv(&d.x, B as u64), &fv(&d.y, B as u64)]), L_EXT).done());
-    fentry!(v, S, B, format!("Repr<{B}> == / cmp"), FXY, |c| { let (x, y) = (c.rx::<B>(), c.ry::<B>()); (x == y, x.cmp(&y)) }, |d| Pre::new().unspec(any_extreme(&[&fv(&d.x, B as u64), &fv(&d.y, B as u64)]), L_EXT).done());
-    fentry!(v, S, B, format!("{t}::abs_cmp"), FXY, |c| c.fx::<R, B>().abs_cmp(&c.fy::<R, B>()), |d| Pre::new().unspec(any_extreme(&[&fv(&d.x, B as u64), &fv(&d.y, B as u64)]), L_EXT).done());
+    fentry!(v, S, B, format!("{t} == / cmp / partial_cmp"), FXY, |c| { let (x, y) = (c.fx::<R, B>(), c.fy::<R, B>()); (x == y, x.cmp(&y), x.partial_cmp(&y)) }, |d| Pre::new().unspec(any_extreme(&[&fv(&d.x, B as u64), &fv(&d.y, B as u64)]), L_EXT).cheap_exp(true).done());
+    fentry!(v, S, B, format!("{t} == / partial_cmp FBig<Down,{B}>"), FXY, |c| { let (x, y) = (c.fx::<R, B>(), c.fy::<mode::Down, B>()); (x == y, x.partial_cmp(&y)) }, |d| Pre::new().unspec(any_extreme(&[&fv(&d.x, B as u64), &fv(&d.y, B as u64)]), L_EXT).cheap_exp(true).done());
+    // the precision is a bound on the digits, never a count of digits to produce
+    fentry!(v, S, B, format!("{t} == / cmp / abs_cmp at a precision of 10^6..10^9 digits"), U0.x().y().n(NK::Sel), |c| { let p = [1_000_000usize, 1 << 20, 50_000_000, 1_000_000_000, 1 << 31, 4_000_000_000][(c.n % 6) as usize]; let (x, y) = (c.fx::<R, B>().with_precision(p).value(), c.fy::<R, B>().with_precision(p).value()); (x == y, x.cmp(&y), x.abs_cmp(&y)) }, |d| Pre::new().unspec(any_extreme(&[&fv(&d.x, B as u64), &fv(&d.y, B as u64)]), L_EXT).unspec(any_inf(&[&fv(&d.x, B as u64), &fv(&d.y, B as u64)]), L_INFU).cheap_exp(true).done());
+    fentry!(v, S, B, format!("Repr<{B}> == / cmp"), FXY, |c| { let (x, y) = (c.rx::<B>(), c.ry::<B>()); (x == y, x.cmp(&y)) }, |d| Pre::new().unspec(any_extreme(&[&fv(&d.x, B as u64), &fv(&d.y, B as u64)]), L_EXT).cheap_exp(true).done());
+    fentry!(v, S, B, format!("{t}::abs_cmp"), FXY, |c| c.fx::<R, B>().abs_cmp(&c.fy::<R, B>()), |d| Pre::new().unspec(any_extreme(&[&fv(&d.x, B as u64), &fv(&d.y, B as u64)]), L_EXT).cheap_exp(true).done());
     fentry!(v, S, B, format!("{t}::abs_cmp(UBig) / abs_cmp(IBig)"), U0.x().a(2), |c| (c.fx::<R, B>().abs_cmp(&c.ua()), c.fx::<R, B>().abs_cmp(&c.ia()), c.ia().abs_cmp(&c.fx::<R, B>())), |d| { let x = fv(&d.x, B as u64); Pre::new().unspec(x.extreme(), L_EXT).unspec(x.inf != 0, L_INFU).done() });
     fentry!(v, S, B, format!("{t}::log2_bounds/log2_est"), FX, |c| { let x = c.fx::<R, B>(); let (l, h) = x.log2_bounds(); (l, h, x.log2_est()) }, |d| { let x = fv(&d.x, B as u64); Pre::new().unspec(x.zero || x.inf != 0, "unspecified: log2_bounds of 0 / infinity").done() });
     fentry!(v, S, B, format!("{t} clone/clone_from/default"), FXY, |c| { let mut x = c.fx::<R, B>().clone(); x.clone_from(&c.fy::<R, B>()); (x, FBig::<R, B>::default()) }, |_d| ret());
@@ -2229,6 +2248,19 @@ fn num_order_ops(v: &mut Vec<Op>) {
         Pre::new().unspec(bad, L_EXT).unspec(far, L_FAR).heavy(far).done()
     }
     entry!(v, "float", F, 2, "FBig<Zero,2> NumOrd FBig<HalfAway,10>", FXY, |c| (c.fx::<mode::Zero, 2>().num_partial_cmp(&c.fy::<mode::HalfAway, 10>()), c.fy::<mode::HalfAway, 10>().num_partial_cmp(&c.fx::<mode::Zero, 2>())), |d| pre_no(d, 2, true));
+    // within one base: magnitudes that differ by more than a digit or two are ordered from the
+    // logarithm estimates whatever the exponents; only numbers of about the same magnitude are aligned
+    // digit by digit (as for two different bases, and then a far exponent needs its digits)
+    fn pre_no_same(d: &Case, b: u64) -> Exp {
+        let (x, y) = (fv(&d.x, b), fv(&d.y, b));
+        // "about the same magnitude" is relative: the estimates are f32 values, 24 bits of log2 |x|
+        let (mx, my) = (x.exp as i128 + x.digits as i128, y.exp as i128 + y.digits as i128);
+        let near = x.finite() && y.finite() && !x.zero && !y.zero && x.neg == y.neg && (mx - my).abs() <= 3 + (mx.abs().max(my.abs()) >> 18);
+        let far = x.far() || y.far();
+        Pre::new().unspec(x.extreme() || y.extreme(), L_EXT).unspec(far && near, L_FAR).heavy(far && near).cheap_exp(!near).done()
+    }
+    entry!(v, "float", F, 10, "FBig<HalfAway,10> NumOrd FBig<Zero,10> / Repr<10> NumOrd Repr<10>", FXY, |c| (c.fx::<mode::HalfAway, 10>().num_partial_cmp(&c.fy::<mode::Zero, 10>()), c.rx::<10>().num_partial_cmp(&c.ry::<10>())), |d| pre_no_same(d, 10));
+    entry!(v, "float", F, 2, "FBig<Zero,2> NumOrd FBig<Down,2> / Repr<2> NumOrd Repr<2>", FXY, |c| (c.fx::<mode::Zero, 2>().num_partial_cmp(&c.fy::<mode::Down, 2>()), c.rx::<2>().num_partial_cmp(&c.ry::<2>())), |d| pre_no_same(d, 2));
     entry!(v, "float", F, 10, "Repr<10> NumOrd Repr<2>", FXY, |c| c.rx::<10>().num_partial_cmp(&c.ry::<2>()), |d| pre_no(d, 10, true));
     entry!(v, "float", F, 10, "FBig<HalfAway,10> NumOrd UBig/IBig (both directions)", U0.x().a(2), |c| { let x = c.fx::<mode::HalfAway, 10>(); (x.num_partial_cmp(&c.ua()), x.num_partial_cmp(&c.ia()), c.ia().num_partial_cmp(&x)) }, |d| pre_no(d, 10, false));
     entry!(v, "float", F, 2, "FBig<Zero,2> NumOrd u8/i64/u128 (both directions)", U0.x().k(), |c| { let x = c.fx::<mode::Zero, 2>(); (x.num_partial_cmp(&(c.k128() as u8)), (c.k128() as i64).num_partial_cmp(&x), x.num_partial_cmp(&(c.k128() as u128))) }, |d| pre_no(d, 2, false));
@@ -3168,6 +3200,31 @@ fn clamp_counts(c: &mut Case, u: &Uses) {
 /// (uniform) × edge tuple.  No shrinking: a failing call is already (catalogue entry, edge values),
 /// and every evaluation of a hanging case costs 40 s.
 fn call_strategy(ops: Vec<usize>) -> BoxedStrategy<Case> {
+    call_strategy_with(ops, false)
+}
+
+/// float operands with exponents from 2^21 to 2^59 on both sides of zero
+fn flt_far(base: u64) -> BoxedStrategy<Flt> {
+    // all beyond 2^20: the expectation functions themselves spell out B^|e| below that line
+    let exps: Vec<i64> = vec![1 << 21, 3_000_000, 10_000_000, 1 << 24, 1 << 27, 300_000_000, 1 << 30, 4_000_000_000, 1 << 40, 1 << 50, 1 << 59];
+    let sigs: Vec<i64> = vec![1, 3, 5, 7, 12345, -1, -3, -9973, 99, 101, (1 << 53) - 1];
+    (prop::sample::select(sigs), prop::sample::select(exps), any::<bool>(), 0i64..8, prec_edge(), 0u8..4)
+        .prop_map(move |(s, e, neg, jitter, prec, pm)| {
+            let f = Flt { inf: 0, sig: Int::from_i128(s as i128), exp: if neg { -(e + jitter) } else { e + jitter }, prec };
+            let v = fv(&f, base);
+            let prec = match pm {
+                0 if prec != 0 => v.digits.max(1).min(u32::MAX as u64) as u32,
+                _ => prec,
+            };
+            Flt { prec, ..f }
+        })
+        .boxed()
+}
+
+/// `far`: the float operands come from `flt_far`, and a call is kept that way only where its
+/// expectation says the exponent costs nothing (must return, cheap exponent); otherwise the exponents
+/// are folded back into ±1000 so that the case still says something
+fn call_strategy_with(ops: Vec<usize>, far: bool) -> BoxedStrategy<Case> {
     assert!(!ops.is_empty());
     let mut fams: Vec<(&'static str, Vec<usize>)> = Vec::new();
     for i in ops {
@@ -3185,8 +3242,9 @@ fn call_strategy(ops: Vec<usize>) -> BoxedStrategy<Case> {
             let u = op.uses;
             let base = if op.base == 0 { 2 } else { op.base };
             let name = op.name.clone();
-            let fx = if u.x { flt_edge(base) } else { Just(Flt::default()).boxed() };
-            let fy = if u.y { flt_edge(base) } else { Just(Flt::default()).boxed() };
+            let fx = if u.x { if far { flt_far(base) } else { flt_edge(base) } } else { Just(Flt::default()).boxed() };
+            let fy = if u.y { if far { prop_oneof![flt_far(base), flt_edge(base)].boxed() } else { flt_edge(base) } } else { Just(Flt::default()).boxed() };
+            let pre = op.pre;
             (count_edge(u.n), string_edge(u.s), fx, fy).prop_map(move |(n, s, x, y)| {
                 let mut c = Case { op: name.clone(), n, s, x, y, ..Case::default() };
                 let pick = |mode: u8, v: &Int| match mode {
@@ -3208,6 +3266,13 @@ fn call_strategy(ops: Vec<usize>) -> BoxedStrategy<Case> {
                     c.x.sig.neg = false;
                 }
                 clamp_counts(&mut c, &u);
+                if far {
+                    let e = pre(&c);
+                    if !(matches!(e.kind, Kind::Ret) && e.cheap_exp) {
+                        c.x.exp %= 1000;
+                        c.y.exp %= 1000;
+                    }
+                }
                 c
             })
         })
@@ -3280,6 +3345,9 @@ fn main() {
 
     ck.sub("int_calls", (30_000, 750_000), || call_strategy(ops_where(|o| o.krate == "int")), judge);
     ck.sub("float_calls", (24_000, 600_000), || call_strategy(ops_where(|o| o.krate == "float")), judge);
+    // the operations whose cost must not depend on the exponent, with exponents of 2^21 .. 2^59
+    ck.sub("float_calls_far_exponents", (6_000, 150_000), || call_strategy_with(ops_where(|o| o.krate == "float" && o.uses.x), true), judge);
+    ck.sub("float_compare_far_exponents", (1_500, 40_000), || call_strategy_with(ops_where(|o| o.krate == "float" && o.uses.x && (o.name.contains("cmp") || o.name.contains("NumOrd") || o.name.contains("=="))), true), judge);
     ck.sub("ratio_calls", (8_000, 200_000), || call_strategy(ops_where(|o| o.krate == "ratio")), judge);
     ck.sub("base_calls", (3_000, 75_000), || call_strategy(ops_where(|o| o.krate == "base")), judge);
     ck.sub("parse_int", (4_000, 100_000), || parse_strategy(ops_where(|o| o.fam == "int: parsing"), SK::Int), judge);
